@@ -85,10 +85,10 @@ Proof.
     apply negb_false_iff, name_valid_len in Hval.
     destruct (negb (u =? "")%string && negb uo); [discriminate|].
     destruct Hinv as [Hwf Hso].
-    assert (forall x d', (if is_sub n0 then
+    assert (forall (x : option Z) d', (if is_sub n0 then
                match reg s !! parent_name n0 with
                | Some p0 => if bool_decide (d_owner p0 = a) then Some (d_expiry p0) else None
-               | None => None end else Some x) = Some d' ->
+               | None => None end else x) = Some d' ->
              is_sub n0 = true -> exists p0, reg s !! parent_name n0 = Some p0 /\ d_owner p0 = a) as Hpar.
     { intros x d' Hm Hs. rewrite Hs in Hm. destruct (reg s !! parent_name n0) as [p0|]; [|discriminate].
       destruct (bool_decide (d_owner p0 = a)) eqn:Hb; [|discriminate]. apply bool_decide_eq_true in Hb.
@@ -170,6 +170,8 @@ Proof.
     destruct (is_expired d (e_v e)); [discriminate|].
     destruct (negb (bool_decide (d_owner d = a))); [discriminate|].
     destruct (debit (bal s) a p); [|discriminate].
+    destruct (blocks_bought p (o_perblock (e_opts e))); [|discriminate].
+    destruct (expiry_overflows (d_expiry d) z); [discriminate|].
     injection H as <-. simpl. eapply inv_owner_preserving; [|exact Hinv].
     intros n. destruct (decide (n = n0)) as [->|Hne].
     + by rewrite lookup_insert, Hd.
